@@ -35,12 +35,12 @@ import (
 //	Z               release everything, shut down, and check that every call returns -> clean | stuck:…
 
 func init() {
-	props["C07"] = &prop{gen: genC07, eval: evalServerSub, timeout: 20 * time.Second}
-	props["C06"] = &prop{gen: genC06, eval: evalServerSub, timeout: 20 * time.Second}
+	props["C07"] = &prop{gen: genC07, eval: evalServerSub, timeout: 60 * time.Second}
+	props["C06"] = &prop{gen: genC06, eval: evalServerSub, timeout: 60 * time.Second}
 }
 
-const labWait = 2 * time.Second      // completion of a step that must happen
-const labBlocked = 60 * time.Millisecond // how long "blocked" is observed before it is reported
+const labWait = 8 * time.Second      // completion of a step that must happen
+const labBlocked = 80 * time.Millisecond // how long "blocked" is observed before it is reported
 
 type labDgram struct {
 	data []byte
@@ -611,7 +611,9 @@ func runServerScenario(skipVerify bool, secretSpec string, cmds []string, w *os.
 // Every scenario runs in a subprocess: a double close of lastActive inside a datagram goroutine is
 // an unrecoverable panic, which must be an observation ("CRASH"), not the death of the harness.
 func evalServerSub(op string, args []string) string {
-	if op != "scenario" || len(args) != 3 {
+	if op == "dups" && len(args) == 1 {
+		args = []string{"dups", args[0], "-"}
+	} else if op != "scenario" || len(args) != 3 {
 		return "UNKNOWN-OP"
 	}
 	if os.Getenv("VH_INPROC") != "" {
@@ -622,8 +624,15 @@ func evalServerSub(op string, args []string) string {
 	out, err := cmd.Output()
 	s := strings.TrimSpace(string(out))
 	if err != nil {
-		if ee, ok := err.(*exec.ExitError); ok && strings.Contains(string(ee.Stderr), "close of closed channel") {
-			return strings.TrimSpace(s + " CRASH(close of closed channel)")
+		if ee, ok := err.(*exec.ExitError); ok {
+			switch {
+			case strings.Contains(string(ee.Stderr), "DATA RACE"):
+				return strings.TrimSpace(s + " RACE(data race reported by the race detector)")
+			case strings.Contains(string(ee.Stderr), "close of closed channel"):
+				return strings.TrimSpace(s + " CRASH(close of closed channel)")
+			case strings.Contains(string(ee.Stderr), "concurrent map"):
+				return strings.TrimSpace(s + " CRASH(concurrent map access)")
+			}
 		}
 		return strings.TrimSpace(s + " CRASH")
 	}
@@ -631,6 +640,9 @@ func evalServerSub(op string, args []string) string {
 }
 
 func evalServerInproc(args []string) string {
+	if args[0] == "dups" {
+		return runDups(atoi(args[1]), nil)
+	}
 	skip := args[0] == "1"
 	if args[2] == "-" {
 		return "BAD-CASE"
@@ -742,6 +754,9 @@ func genC06(g *Gen, tier string, emit func(op string, args ...string)) {
 	}
 	secrets := "0:73,1:7365637265743a31,2:-,3:error"
 	secretOf := map[int][]byte{0: []byte("s"), 1: []byte("secret:1")}
+	for k := 0; k < n/10; k++ {
+		emit("dups", itoa(g.Pick(2, 3, 5, 8, 16)))
+	}
 	for k := 0; k < n; k++ {
 		skip := "0"
 		if g.Chance(1, 5) {
@@ -811,4 +826,71 @@ func genC06(g *Gen, tier string, emit func(op string, args ...string)) {
 		cmds = append(cmds, "Z")
 		emit("scenario", skip, secrets, strings.Join(cmds, ","))
 	}
+}
+
+// ---- free-running duplicates: n identical datagrams delivered back to back; the handler blocks, so
+// exactly one of them may reach it while the others must be dropped by the dedup table.  Unlike the
+// parked scenarios this lets the goroutines race for the table (meaningful under -race as well).
+type dupConn struct {
+	in     chan []byte
+	closed chan struct{}
+	once   sync.Once
+}
+
+func (c *dupConn) ReadFrom(p []byte) (int, net.Addr, error) {
+	select {
+	case d := <-c.in:
+		return copy(p, d), labAddr{"peer0"}, nil
+	case <-c.closed:
+		return 0, nil, &net.OpError{Op: "read", Net: "udp", Err: net.ErrClosed}
+	}
+}
+func (c *dupConn) WriteTo(p []byte, addr net.Addr) (int, error) { return len(p), nil }
+func (c *dupConn) Close() error                                 { c.once.Do(func() { close(c.closed) }); return nil }
+func (c *dupConn) LocalAddr() net.Addr                          { return labAddr{"local0"} }
+func (c *dupConn) SetDeadline(t time.Time) error                { return nil }
+func (c *dupConn) SetReadDeadline(t time.Time) error            { return nil }
+func (c *dupConn) SetWriteDeadline(t time.Time) error           { return nil }
+
+func runDups(n int, w *os.File) string {
+	if n < 1 || n > 64 {
+		return "BAD-CASE"
+	}
+	var starts, dones int32
+	release := make(chan struct{})
+	conn := &dupConn{in: make(chan []byte), closed: make(chan struct{})}
+	srv := &radius.PacketServer{SecretSource: radius.StaticSecretSource([]byte("s")), Handler: radius.HandlerFunc(func(w radius.ResponseWriter, r *radius.Request) {
+		atomic.AddInt32(&starts, 1)
+		<-release
+	})}
+	radius.VerifSetHook(func(p string) {
+		if p == "dgram.done" {
+			atomic.AddInt32(&dones, 1)
+		}
+	})
+	defer radius.VerifSetHook(nil)
+	ret := make(chan error, 1)
+	go func() { ret <- srv.Serve(conn) }()
+	d := accessRequest(9)
+	for i := 0; i < n; i++ {
+		conn.in <- d
+	}
+	deadline := time.Now().Add(labWait)
+	for time.Now().Before(deadline) {
+		if int(atomic.LoadInt32(&starts)+atomic.LoadInt32(&dones)) >= n {
+			break
+		}
+		time.Sleep(200 * time.Microsecond)
+	}
+	time.Sleep(2 * time.Millisecond)
+	s, dn := atomic.LoadInt32(&starts), atomic.LoadInt32(&dones)
+	close(release)
+	ctx, cancel := context.WithTimeout(context.Background(), labWait)
+	defer cancel()
+	serr := srv.Shutdown(ctx)
+	out := fmt.Sprintf("starts=%d dropped=%d shutdown=%s", s, dn, errName(serr))
+	if w != nil {
+		w.WriteString(out)
+	}
+	return out
 }
